@@ -82,7 +82,7 @@ def _run(case, ctx, variant):
     m0 = AM.resolve(a)
     cell = np.array(a.cell, float)
     try:
-        r = a.replicate([dims, list(dims), np.array(dims)][case["s"] % 3])
+        r = a.replicate([dims, list(dims), np.array(dims)][case["s"] % 3]) if case["s"] % 2 else a.replicate(repldims=[dims, list(dims), np.array(dims)][case["s"] % 3])
         st.seen("factor_container", ["tuple", "list", "ndarray"][case["s"] % 3])
     except Exception as e:
         if type(e).__name__ == "PostBroken":
